@@ -57,18 +57,6 @@ theorem pyIndex_offset (off : Int) (_ht : -(n : Int) ≤ t) (_ht' : t < n)
 /-! The loop proper.  `u1` is the state after the offset copy, `u0` the state the pre-hook leaves,
     `v0` the check vector read *before* the pre-hook (as the code does). -/
 
-/-- Accepted call whose offset test passes (or `offset = 0`). -/
-def Accepted : Prop :=
-  ¬ o.minIter > o.maxIter ∧ (o.offset = 0 ∨ (0 ≤ normT n t + o.offset ∧ normT n t + o.offset < n))
-
-theorem solveT_accepted (h : Accepted o n t) :
-    solveT I o n t w = solveCore I o n t w (seed I o t w.user) := by
-  obtain ⟨h0, h1 | ⟨h2, h3⟩⟩ := h
-  · simp [solveT, h0, h1]
-  · have h2' : ¬ normT n t + o.offset < 0 := by omega
-    have h3' : ¬ normT n t + o.offset ≥ n := by omega
-    simp [solveT, h0, h2', h3']
-
 /-- **Convergence.**  If check values stay finite and nothing raises, and `k0` is the first pass with
     `max(1, min_iter) ≤ k0 ≤ max_iter` at which every check variable is `close` to its previous value, then
     `solve_t` runs the post-hook after pass `k0`, records status '.', `iterations[t] = k0`, returns `True`. -/
